@@ -305,6 +305,23 @@ func (env *SpecEnv) btreeSpec(name string, n *ast.CallExpr) (SV, bool) {
 		ret := map[string]string{"extStr": SStr, "extInt": SInt, "extBool": SBool, "extF64": SF64}[name]
 		rt := map[string]types.Type{"extStr": types.Typ[types.String], "extInt": types.Typ[types.Int], "extBool": types.Typ[types.Bool], "extF64": types.Typ[types.Float64]}[name]
 		return &Scalar{T: ufun("ext."+nm, sorts, ret, ts...), Ty: rt}, true
+	case "bytesIndex":
+		d := env.eval(n.Args[0]).(*SliceV)
+		return intSV(ufun("ext.bytes.Index", []string{SInt, SInt, SInt, SStr}, SInt, d.Base, d.Off, d.Len, scal(env.eval(n.Args[1])))), true
+	case "scanErr":
+		a := env.eval(n.Args[0]).(*PtrV).Addr
+		cnt := intLit(0)
+		if v, ok := st.ghost["$scans"]; ok {
+			cnt = scal(v)
+		}
+		return &IfaceV{Ty: types.Universe.Lookup("error").Type(), Tag: ufun("ext.bufio.Scanner.Err.tag", []string{SInt, SInt}, SInt, a, cnt), Ref: ufun("ext.bufio.Scanner.Err.ref", []string{SInt, SInt}, SInt, a, cnt)}, true
+	case "scanText":
+		a := env.eval(n.Args[0]).(*PtrV).Addr
+		cnt := intLit(0)
+		if v, ok := st.ghost["$scans"]; ok {
+			cnt = scal(v)
+		}
+		return &Scalar{T: ufun("ext.bufio.Scanner.Text", []string{SInt, SInt}, SStr, a, cnt), Ty: types.Typ[types.String]}, true
 	case "indexOf":
 		return intSV(app(SInt, "str.indexof", scal(env.eval(n.Args[0])), scal(env.eval(n.Args[1])), intLit(0))), true
 	case "substr":
